@@ -8,7 +8,7 @@ WT=$(mktemp -d /tmp/seedwt_XXXXXX); rmdir "$WT"
 git -C /repo worktree add -q "$WT" HEAD || exit 2
 cleanup() { git -C /repo worktree remove --force "$WT" >/dev/null 2>&1; }
 trap cleanup EXIT
-run_demo() { (cd "$1" && PYTHONHASHSEED=0 PYTHONPATH="$1:/tmp/compat" timeout 300 /venv/bin/python -W ignore "$SRC/demo.py" "$1" >/tmp/seed_demo.out 2>&1; echo $?); }
+run_demo() { (cd "$1" && PYTHONHASHSEED=0 PYTHONPATH="$1:/verif/harness" timeout 300 /venv/bin/python -W ignore "$SRC/demo.py" "$1" >/tmp/seed_demo.out 2>&1; echo $?); }
 clean_rc=$(run_demo "$WT")
 if ! git -C "$WT" apply "$SRC/patch.diff"; then echo "PATCH DOES NOT APPLY"; exit 2; fi
 mut_rc=$(run_demo "$WT")
